@@ -773,7 +773,14 @@ def run_replay(w):
     try:
         p = subprocess.run([sys.executable, drv, w['path']], capture_output=True, text=True, timeout=600)
         ok = p.returncode == 1  # driver exits 1 when the witness fails against the real code
-        return {'reproduced': ok, 'output': (p.stdout + p.stderr)[-3000:]}
+        runs = 1
+        # a script talks to a live server over TCP with fixed waits: a misbehaviour counts only if it shows in three runs out of three
+        while ok and runs < 3:
+            p2 = subprocess.run([sys.executable, drv, w['path']], capture_output=True, text=True, timeout=600)
+            runs += 1
+            if p2.returncode != 1:
+                ok = False
+        return {'reproduced': ok, 'runs': runs, 'output': (p.stdout + p.stderr)[-3000:]}
     except Exception as e:
         return {'reproduced': False, 'note': str(e)}
 
